@@ -202,6 +202,24 @@ def standard_verdicts(ctx, agg, name, oracle_keys=()):
         ctx.coverage["runs_ending_in_known_shutdown_hang_F1"] = agg.f1
     if agg.divs and not ctx.violations:
         search_witness(ctx, agg.divs)
+    if agg.divs and not ctx.violations and not any(r.get("mode") == "serial" for r in agg.divs):
+        # still nothing: a wider, cheap search judged by the implementation-side oracles only (no model involved): tiny thresholds
+        # (predicates that hold speculatively and are undone), several LPs per thread, short batches, frequent GVT rounds
+        rnd = random.Random(ctx.seed * 9176 + 5)
+        extra = []
+        for i in range(1500 if ctx.tier == "quick" else 8000):
+            c = gen_configs(ctx, 1)[0]
+            thr = rnd.choice([1, 2, 2, 3])
+            c.update({"seed": rnd.randrange(1, 1 << 30), "mseed": rnd.randrange(1, 1 << 30), "threads": thr,
+                      "lps": thr * rnd.choice([1, 2, 3]), "thr": rnd.choice([3, 8, 20, 60]), "spread": rnd.choice([0, 3, 10, 30]),
+                      "burst": rnd.choice([5, 20, 60, 200]), "period": rnd.choice([0, 0, 10]), "fan": rnd.choice([3, 4]),
+                      "batch": rnd.choice([0, 2, 4, 8]), "t0": rnd.choice([0, 1]), "types": rnd.choice([2, 3, 4]),
+                      "ckpt": rnd.choice([1, 2, 3, 7, 0])})
+            c.pop("skew", None)
+            c.pop("tterm", None)
+            extra.append(c)
+        oracle_search(ctx, extra, ("s_rb_mismatch", "s_below_gvt", "s_double_free", "s_vote_false_pred", "s_vote_uncommitted",
+                                   "s_gvt_decrease"), label="oracle_only_search")
     for r in agg.divs[:3]:
         # a divergence whose model line carries an explicit property failure marker is a witness
         d = r["div"]
